@@ -123,7 +123,7 @@ class Exporter:
             return {"k": "aref", "name": node.symbol.name.lower(),
                     "idx": [self.index(c) for c in node.indices]}
         if isinstance(node, N.StructureReference):
-            raise Unsupported("structure reference")
+            return self.sref(node)
         if isinstance(node, N.Reference):
             return {"k": "ref", "name": node.symbol.name.lower()}
         if isinstance(node, N.UnaryOperation):
@@ -141,6 +141,26 @@ class Exporter:
         if isinstance(node, N.Range):
             raise Unsupported("range outside an array index")
         raise Unsupported(f"expression node {cname}")
+
+    def sref(self, node):
+        '''`s%b%c(i)` of a scalar structure -> access to the flattened variable
+        "s%b%c" (decls() declares one variable per leaf component).'''
+        N, _ = _imports()
+        name = node.symbol.name.lower()
+        mem = node.member
+        if isinstance(node, N.ArrayOfStructuresReference):
+            raise Unsupported("array of structures")
+        while True:
+            name += "%" + mem.name.lower()
+            if isinstance(mem, N.StructureMember) and not hasattr(mem, "indices"):
+                mem = mem.member
+                continue
+            if hasattr(mem, "member"):
+                raise Unsupported("array of structures member")
+            break
+        if isinstance(mem, N.ArrayMember):
+            return {"k": "aref", "name": name, "idx": [self.index(c) for c in mem.indices]}
+        return {"k": "ref", "name": name}
 
     def index(self, node):
         N, _ = _imports()
@@ -429,6 +449,14 @@ class Exporter:
             if self.skip_opaque_symbols and not isinstance(
                     sym.datatype, (S.ScalarType, S.ArrayType)):
                 continue      # e.g. PSyData objects; a reference to one stays undeclared
+            if isinstance(sym.datatype, S.DataTypeSymbol) and \
+                    isinstance(sym.datatype.datatype, S.StructureType):
+                if sym.is_import or sym.is_unresolved or sym.initial_value is not None:
+                    raise Unsupported("structure symbol " + sym.name)
+                is_input = sym.is_argument or not sym.is_automatic
+                out.extend(self._flatten(sym.name.lower(), sym.datatype.datatype,
+                                         "in" if is_input else "poison", bool(sym.is_argument)))
+                continue
             if sym.is_import or sym.is_unresolved:
                 raise Unsupported("imported/unresolved symbol " + sym.name)
             d = {"name": sym.name.lower(), "ty": _ty(sym.datatype), "dims": []}
@@ -453,6 +481,29 @@ class Exporter:
                 d["init"] = "poison"
             out.append(d)
         return out, prelude
+
+    def _flatten(self, prefix, stype, init, is_arg):
+        _, S = _imports()
+        res = []
+        for cname, comp in stype.components.items():
+            dt = comp.datatype
+            name = prefix + "%" + cname.lower()
+            if isinstance(dt, S.DataTypeSymbol) and isinstance(dt.datatype, S.StructureType):
+                res.extend(self._flatten(name, dt.datatype, init, is_arg))
+                continue
+            d = {"name": name, "ty": _ty(dt), "dims": [], "init": init, "arg": is_arg}
+            if isinstance(dt, S.ArrayType):
+                for dim in dt.shape:
+                    if not isinstance(dim, S.ArrayType.ArrayBounds):
+                        raise Unsupported("component shape of " + name)
+                    lo, hi = const_int(dim.lower), const_int(dim.upper)
+                    if lo is None or hi is None:
+                        raise Unsupported("non-literal component bound of " + name)
+                    d["dims"].append([lo, hi])
+            if getattr(comp, "initial_value", None) is not None:
+                raise Unsupported("component initial value")
+            res.append(d)
+        return res
 
     def routine(self, routine):
         '''{"decls", "body", "subs"} of a top-level routine.'''
